@@ -26,7 +26,8 @@ Case (JSON):
               "base_params": "<parameter list>"   (override only: what the base interface says)
               "impl": {"kind": "missing"|"method"|"instfunc"|"classmethod"|"staticmethod"|"builtin"|
                                "methdesc"|"property"|"instproperty"|"callable"|"partial"|"other"|"value",
-                               "poolfunc_inst" | "poolfunc_method" (+ "func": name in "funcs"),
+                               "poolfunc_inst" | "poolfunc_method" (+ "func": name in "funcs") |
+                               "wrapped_method"|"wrapped_classmethod"|"wrapped_staticmethod" (+ "inner": [params, ...]),
                        "params": "<parameter list incl. self/cls where the kind has one>"},
               "alias": {...} (see build_iface), "alias_impl": an impl stored under the alias name}]}
 Parameter lists are source text, e.g. "self, p0, p1=None, *va, **kw".
@@ -135,6 +136,17 @@ def build_candidate(case, I, ISub, pool=None):
             continue
         if k == "method":
             lines.append("    def %s(%s): pass" % (name, p))
+        elif k in ("wrapped_method", "wrapped_classmethod", "wrapped_staticmethod"):
+            # functools.wraps decorators: im["inner"] = parameter lists of the wrapped functions, innermost
+            # first; im["params"] = the outermost wrapper, which is what callers reach
+            chain = list(im["inner"]) + [p]
+            lines.append("    def %s(%s): pass" % (name, chain[0]))
+            for q in chain[1:]:
+                lines.append("    _inner = %s\n    def %s(%s): pass\n    %s = functools.wraps(_inner)(%s)"
+                             % (name, name, q, name, name))
+            if k != "wrapped_method":
+                lines.append("    %s = %s(%s)" % (name, k[len("wrapped_"):], name))
+            lines.append("    del _inner")
         elif k == "classmethod":
             lines.append("    @classmethod\n    def %s(%s): pass" % (name, p))
         elif k == "staticmethod":
@@ -211,7 +223,7 @@ def classify_attr(cand, name):
 
 def binds(fn, k, kw):
     try:
-        sig = inspect.signature(fn)
+        sig = inspect.signature(fn, follow_wrapped=False)
     except (TypeError, ValueError):
         return None
     try:
@@ -223,7 +235,7 @@ def binds(fn, k, kw):
 
 def n_positional(fn):
     try:
-        ps = inspect.signature(fn).parameters.values()
+        ps = inspect.signature(fn, follow_wrapped=False).parameters.values()
     except (TypeError, ValueError):
         return 0
     return sum(1 for p in ps if p.kind in (p.POSITIONAL_ONLY, p.POSITIONAL_OR_KEYWORD))
